@@ -114,8 +114,41 @@ pub fn run(env: &Env, run: &Run) -> (Stats, Coverage) {
             strs.push(s);
         }
     }
+    // length layer: the same character repeated k times for lengths around every power-of-two
+    // boundary a length computation could wrap at; all ordered pairs of these are compared too
+    let lens: Vec<usize> = vec![1, 2, 3, 127, 128, 129, 255, 256, 257, 258, 511, 512, 513, 1023, 1025, 65535, 65536, 65537];
+    let mut long_strs: Vec<String> = Vec::new();
+    for (ch, maxlen) in [('a', usize::MAX), ('A', 1025), ('\u{e9}', 1025), ('\u{65e5}', 513)] {
+        for &k in &lens {
+            if k <= maxlen {
+                long_strs.push(std::iter::repeat(ch).take(k).collect());
+            }
+        }
+    }
     let mut st = Stats::default();
     let mut accepted_pairs_true = 0u64;
+    for p in Prof::ALL {
+        let canons: Vec<Expect> = long_strs.par_iter().map(|s| canon(env, p, s)).collect();
+        let shards: Vec<Stats> = (0..long_strs.len())
+            .into_par_iter()
+            .map(|i| {
+                let mut st = Stats::default();
+                st.states += 1;
+                for j in 0..long_strs.len() {
+                    st.transitions += 1;
+                    let got = check_pair(p, &long_strs[i], &long_strs[j], &canons[i], &canons[j], &mut st);
+                    if got == OutB::Ok(true) && i != j {
+                        st.nontrivial += 1;
+                    }
+                    st.count("out:length-layer-pair");
+                }
+                st
+            })
+            .collect();
+        for s in shards {
+            st.merge(s);
+        }
+    }
     for p in Prof::ALL {
         let canons: Vec<Expect> = strs.par_iter().map(|s| canon(env, p, s)).collect();
         let shards: Vec<Stats> = (0..strs.len())
@@ -197,7 +230,7 @@ pub fn run(env: &Env, run: &Run) -> (Stats, Coverage) {
     st.sample(json!({"profile": "UsernameCaseMapped", "a": ["U+0009"], "b": ["U+0378"], "expected": "Err(BadCodepoint{0x9,0,Disallowed}) - the first operand's error"}));
     st.sample(json!({"profile": "OpaqueString", "a": ["e", "U+0301"], "b": ["U+00E9"], "expected": "Ok(true)"}));
     let cov = Coverage {
-        rule: format!("all ordered pairs of the {} strings of length <= {} over 23 symbols (plus all strings one longer over the first 12 (quick) / 8 (thorough) interaction symbols) (case, width, spacing, canonical and compatibility variants of the same names, invalid strings) x 4 profiles; oracle: usernames/OpaqueString = the implementation's own enforce on each operand (first operand's error first), Nickname = reference comparison pipeline (validate, space rule, lowercase, NFKC, iterated per RFC 8264 s.7); reflexivity/symmetry/transitivity checked directly on the first {} strings (all triples); non-trivial = distinct strings that compare equal", strs.len(), n, strs.len().min(run.tier.pick(150, 400))),
+        rule: format!("all ordered pairs of the {} strings of length <= {} over 23 symbols (plus all strings one longer over the first 12 (quick) / 8 (thorough) interaction symbols) (case, width, spacing, canonical and compatibility variants of the same names, invalid strings) x 4 profiles, plus all ordered pairs of a, A, U+00E9, U+65E5 each repeated k times for k around 2^7, 2^8, 2^9, 2^10, 2^16 (length layer); oracle: usernames/OpaqueString = the implementation's own enforce on each operand (first operand's error first), Nickname = reference comparison pipeline (validate, space rule, lowercase, NFKC, iterated per RFC 8264 s.7); reflexivity/symmetry/transitivity checked directly on the first {} strings (all triples); non-trivial = distinct strings that compare equal", strs.len(), n, strs.len().min(run.tier.pick(150, 400))),
         alphabet: json!(sigma.iter().map(|c| format!("U+{:04X}", *c as u32)).collect::<Vec<_>>()),
         bound_completed: format!("{} strings, {} ordered pairs x 4 profiles", strs.len(), strs.len() * strs.len()),
         exhaustive: false,
